@@ -285,6 +285,10 @@ func hessQ(ar mat, tau []float64, ilo, ihi int) mat {
 // fields: J[0] 0 Dgehrd 1 Dgehd2, J[1] bits side|trans<<1 of Dormhr, K other
 // dimension of C, N, Ilo, Ihi, Pad[0] lda, Pad[1] Dorghr, Pad[2] ldc, LW, Cls
 func checkGehrd(c kase) *vk.Failure {
+	return viaDlarft(checkGehrdBody(c), c.N)
+}
+
+func checkGehrdBody(c kase) *vk.Failure {
 	n := c.N
 	rng := c.rng(8)
 	ilo, ihi := c.ilohi(n)
@@ -534,6 +538,10 @@ func checkSchurEigs(pfx string, t mat, wr, wi []float64, lo, hi int) *vk.Failure
 // subdiagonal (Dhseqr) / restrict iloz..ihiz to ilo..ihi (others); N, Ilo, Ihi,
 // Pad[0] ldh, Pad[1] ldz, LW, Cls
 func checkHseqr(c kase) *vk.Failure {
+	return viaDlarft(checkHseqrBody(c), c.N)
+}
+
+func checkHseqrBody(c kase) *vk.Failure {
 	n := c.N
 	rng := c.rng(9)
 	ilo, ihi := c.ilohi(n)
@@ -772,6 +780,10 @@ func eigvecResidual(b mat, wr, wi float64, yr, yi []float64, left bool) float64 
 
 // fields: J[0] jobvl, J[1] jobvr, N, Pad[0..2], LW, Cls, Sc, Wrap
 func checkGeev(c kase) *vk.Failure {
+	return viaDlarft(checkGeevBody(c), c.N)
+}
+
+func checkGeevBody(c kase) *vk.Failure {
 	n := c.N
 	rng := c.rng(10)
 	a0 := genSquare(c.Cls, n, rng)
@@ -1346,7 +1358,7 @@ func checkLanv2(c s4Case) *vk.Failure {
 	aa, bb, c2, dd, rt1r, rt1i, rt2r, rt2i, cs, sn := impl.Dlanv2(a*s, b*s, cc*s, d*s)
 	aa, bb, c2, dd, rt1r, rt1i, rt2r, rt2i = aa/s, bb/s, c2/s, dd/s, rt1r/s, rt1i/s, rt2r/s, rt2i/s
 	nrm := nrm2([]float64{a, b, cc, d})
-	tol := 32 * eps * nrm
+	tol := 32*eps*nrm + 0x1p-1070/s // relative bound plus a few quanta of the subnormal range
 	desc := fmt.Sprintf("Dlanv2(%v,%v,%v,%v) = [%v %v; %v %v] cs=%v sn=%v rt1=(%v,%v) rt2=(%v,%v)", a, b, cc, d, aa, bb, c2, dd, cs, sn, rt1r, rt1i, rt2r, rt2i)
 	for _, v := range []float64{aa, bb, c2, dd, cs, sn, rt1r, rt1i, rt2r, rt2i} {
 		if math.IsNaN(v) || math.IsInf(v, 0) {
